@@ -212,6 +212,13 @@ func (p *pathNode) removeWithName(name string, fn func(ref *fidRef)) *pathNode {
 	p.childMu.Lock()
 	defer p.childMu.Unlock()
 
+	// Detach the original path node, if it exists, before anything else:
+	// fn calls into the backend (Renamed) and may panic. A node left behind
+	// under its old name while its references have moved on lets a later
+	// rename link the tree into a cycle.
+	origPathNode := p.childNodes[name]
+	delete(p.childNodes, name)
+
 	if m, ok := p.childRefs[name]; ok {
 		for ref := range m {
 			delete(m, ref)
@@ -225,14 +232,13 @@ func (p *pathNode) removeWithName(name string, fn func(ref *fidRef)) *pathNode {
 			// can lead to data races. If the child has already
 			// been destroyed, then we can skip the callback.
 			if ref.TryIncRef() {
-				fn(ref)
-				ref.DecRef()
+				func() {
+					defer ref.DecRef()
+					fn(ref)
+				}()
 			}
 		}
 	}
 
-	// Return the original path node, if it exists.
-	origPathNode := p.childNodes[name]
-	delete(p.childNodes, name)
 	return origPathNode
 }
